@@ -25,8 +25,8 @@ KINDS = {
     "time": ({"type": "string", "format": "time"}, None, ["03:04:05", "23:59:59", "00:00:00"]),
     "uuid": ({"type": "string", "format": "uuid"}, None,
              ["123e4567-e89b-12d3-a456-426614174000", "00000000-0000-0000-0000-000000000000", "ffffffff-ffff-4fff-bfff-ffffffffffff"]),
-    "byte": ({"type": "string", "format": "byte"}, None, ["aGVsbG8=", "AA==", ""]),
-    "binary": ({"type": "string", "format": "binary"}, None, ["raw", "x", ""]),
+    "byte": ({"type": "string", "format": "byte"}, None, ["aGVsbG8=", "+/+/++8=", ""]),
+    "binary": ({"type": "string", "format": "binary"}, None, ["raw", "/9j/4AAQSkZJRg==", ""]),
     "email": ({"type": "string", "format": "email"}, None, ["a@b.c", "x@y.z", "é@b.c"]),
     "uri": ({"type": "string", "format": "uri"}, None, ["http://a/b", "https://x.y/z?q=1", "urn:x"]),
     "integer": ({"type": "integer"}, 7, [1, -5, 0]),
